@@ -301,38 +301,72 @@ func roundCoverage(c *core.Ctx, rule string) {
 	}
 	var leaves []amtLeaf
 	amountLeaves(total, "", map[*types.Named]bool{}, &leaves)
-	info := tround.Pkg.TypesInfo
-	om := core.NewOriginMap(info, tround.Decl.Body, recvVar(tround))
 	done := map[string]string{}
-	ast.Inspect(tround.Decl.Body, func(n ast.Node) bool {
-		as, ok := n.(*ast.AssignStmt)
-		if !ok || len(as.Lhs) != 1 || len(as.Rhs) != 1 {
-			return true
+	// the rounding may be handed down to methods of the rows (ct.round(exp), rt.round(exp)):
+	// they are walked with the row's path as prefix, as long as the call is made for every row
+	var walk func(fd *core.FuncDecl, prefix string, depth int)
+	walk = func(fd *core.FuncDecl, prefix string, depth int) {
+		if depth > 3 {
+			return
 		}
-		lo, ok := om.Of(as.Lhs[0])
-		if !ok {
-			return true
+		info := fd.Pkg.TypesInfo
+		om := core.NewOriginMap(info, fd.Decl.Body, recvVar(fd))
+		join := func(path string) string {
+			if prefix == "" {
+				return path
+			}
+			if path == "" {
+				return prefix
+			}
+			return prefix + "." + path
 		}
-		r := ast.Unparen(as.Rhs[0])
-		if call, ok := r.(*ast.CallExpr); ok {
-			if cf := core.Callee(info, call); cf != nil && strings.HasPrefix(cf.Name(), "Rescale") {
-				if ro, ok := om.Of(core.RecvExpr(call)); ok && ro.Path == lo.Path {
-					if why := everyIteration(p, info, tround.Decl.Body, as, nilTestOfOperands(info, as)); why == "" {
-						done[lo.Path] = "rescaled"
+		ast.Inspect(fd.Decl.Body, func(n ast.Node) bool {
+			if es, ok := n.(*ast.ExprStmt); ok {
+				if call, ok := es.X.(*ast.CallExpr); ok {
+					if cf := core.Callee(info, call); cf != nil && core.InModule(cf.Pkg()) && cf != fd.Obj {
+						if re := core.RecvExpr(call); re != nil {
+							if ro, ok := om.Of(re); ok {
+								if cfd := p.DeclOf(cf); cfd != nil && recvVar(cfd) != nil {
+									if why := everyIteration(p, info, fd.Decl.Body, es, nilTestOfOperands(info, es)); why == "" {
+										walk(cfd, join(ro.Path), depth+1)
+									}
+								}
+							}
+						}
 					}
+				}
+				return true
+			}
+			as, ok := n.(*ast.AssignStmt)
+			if !ok || len(as.Lhs) != 1 || len(as.Rhs) != 1 {
+				return true
+			}
+			lo, ok := om.Of(as.Lhs[0])
+			if !ok {
+				return true
+			}
+			r := ast.Unparen(as.Rhs[0])
+			if call, ok := r.(*ast.CallExpr); ok {
+				if cf := core.Callee(info, call); cf != nil && strings.HasPrefix(cf.Name(), "Rescale") {
+					if ro, ok := om.Of(core.RecvExpr(call)); ok && ro.Path == lo.Path {
+						if why := everyIteration(p, info, fd.Decl.Body, as, nilTestOfOperands(info, as)); why == "" {
+							done[join(lo.Path)] = "rescaled"
+						}
+					}
+				}
+				return true
+			}
+			if ro, ok := om.Of(r); ok {
+				// precise copy: unexported twin takes the value before rounding
+				lf, rf := lo.Path[strings.LastIndex(lo.Path, ".")+1:], ro.Path[strings.LastIndex(ro.Path, ".")+1:]
+				if lf != rf && strings.EqualFold(lf, rf) && done[join(lo.Path)] == "" {
+					done[join(lo.Path)] = "precise copy of " + join(ro.Path)
 				}
 			}
 			return true
-		}
-		if ro, ok := om.Of(r); ok {
-			// precise copy: unexported twin takes the value before rounding
-			lf, rf := lo.Path[strings.LastIndex(lo.Path, ".")+1:], ro.Path[strings.LastIndex(ro.Path, ".")+1:]
-			if lf != rf && strings.EqualFold(lf, rf) && done[lo.Path] == "" {
-				done[lo.Path] = "precise copy of " + ro.Path
-			}
-		}
-		return true
-	})
+		})
+	}
+	walk(tround, "", 0)
 	for _, l := range leaves {
 		c.Ob(rule, "tax.Total."+l.Path+"#rounded", l.Field.Pos(), done[l.Path] != "",
 			fmt.Sprintf("tax.Total.round does not rescale %s (for every row): the tax summary presents it at working precision", l.Path))
